@@ -8,9 +8,32 @@ SPEC = Spec(
     harnesses=[
         Harness(name="compression", module="config/confighttp", pkg="config/confighttp",
                 files={"zz_verif_c16_test.go": "c16/compression_test.go"},
-                test="TestVerifC16", driver="drv_c16", n={"quick": 700, "thorough": 12000}, timeout_s=1500),
+                test="TestVerifC16", driver="drv_c16", n={"quick": 1500, "thorough": 20000}, timeout_s=1500),
     ],
-    rule="",
-    trusted_base=[],
-    assumptions=[],
+    rule="one case = one real server (ServerConfig.ToServer: random compression_algorithms list - nil/default, random subsets in random "
+         "order, lists with unknown names, empty list - and a max_request_body_size placed at body+-1, wire+-1, inside the compressed "
+         "header, half the body, roomy, or <=0 = default) + one real client (ClientConfig.ToClient with every compression type and "
+         "level) + 1-4 requests over loopback: mode client (body given to the configured client), pre (body compressed by the "
+         "library directly at levels the client cannot select, header preset -> client skip branch), garbage (hostile/corrupted/"
+         "truncated streams and odd header values). Bodies: zeros, text pattern, pseudo-random incompressible, explicit bytes; "
+         "corpus first (3 reproduced defects, 1 MiB zip-bomb per algorithm, 64 KiB+-1 per algorithm, thorough: 1 MiB+-1 and all "
+         "decoder-list subsets x client types). non-trivial = some request was encoded, or rejected/panicked, or had a body within "
+         "+-1 of the limit; distinct = distinct op sequences (sha1 of the op lines).",
+    trusted_base=[
+        "Lean 4.33.0 kernel; axioms per theorem listed under axioms_per_theorem (subset of propext, Classical.choice, Quot.sound)",
+        "translator translators/cmd/compression (go/ast): availableDecoders keys and the NewReader package each entry calls, the "
+        "alias branch and the (un)guarded map write of the enable loop in httpContentDecompressor, the errHandler status and the "
+        "MaxBytesReader call of decompressor.ServeHTTP, the Content-Encoding guard of RoundTrip, the writer switch of "
+        "newWriteCloserResetFunc, configcompression Type constants / IsCompressed / UnmarshalText, defaults and wrapper order in ToServer",
+        "hand-written model of clientSend/serve/limitRead (Model/C16.lean), tied by exact differential over loopback on every run",
+        "compression libraries (compress/gzip, compress/zlib, klauspost zstd, golang/snappy, pierrec/lz4) are a parameter: their "
+        "round-trip law dec(enc b)=b is the HYPOTHESIS of the round-trip theorems, validated by the differential (the driver assumes "
+        "the law and must then predict exactly what the real handler read, by length and FNV-1a hash); what a library yields from a "
+        "cut or corrupt stream is taken from the implementation as a model input (dec=...)",
+        "net/http: MaxBytesReader semantics (modelled as limitRead), header canonicalisation, request framing; FNV-1a collisions",
+    ],
+    assumptions=[
+        "Outcome.rejected/handled are distinguished by whether the base handler ran (observed directly in the harness)",
+        "WithDecoder custom decoders and WithErrorHandler are not modelled (harness does not use them)",
+    ],
 )
